@@ -420,7 +420,14 @@ func (w *World) minimiseLex(run *C11Run, sig map[string]string) *C11Run {
 }
 
 func (w *World) oneC11(run *C11Run, res *Result) {
+	if tooManyHangs(res) {
+		res.Stats["runs_skipped_after_hang_cap"]++
+		return
+	}
 	o := w.execLex(run)
+	if o.Verdict.Kind == "budget" || strings.HasPrefix(o.Verdict.Site, "no-eof") {
+		res.Stats["budget_verdicts"]++
+	}
 	sig, detail := w.judgeC11(o)
 	res.Runs++
 	res.Stats["pushrune_calls"] += int64(o.Mon.pushes)
